@@ -67,6 +67,12 @@ static std::vector<std::pair<std::string, std::string>> random_aux(Rng& rng) {
 	static const char* V[] = {"1", "text value", "", "2.5", "it's", "  leading", "trailing  ", "42"};
 	std::vector<std::pair<std::string, std::string>> a; int n = (int)rng.below(7);
 	for (int i = 0; i < n && i < 6; i++) a.push_back({K[i], V[rng.below(8)]});
+	// names a table may or may not accept (they begin like the structural keywords the reader filters out); whatever the table
+	// accepts it holds, and what it holds must survive the round trip
+	static const char* R[] = {"TYPE_OF_TABLE", "ORDERING_SCHEME", "PERIODICITY", "NAXIS_LABELS", "EXTENDED_INFORMATION", "COMMENTARY_ON_FIT",
+	                          "SIMPLEX_METHOD", "BITPIXEL_DEPTH", "TYPE", "ORDER9", "NAXIS", "PERIOD12", "COMMENT", "EXTEND", "TYPEA", "HISTORY_OF_FIT", "END_OF_TABLE"};
+	int m = (int)rng.below(4);
+	for (int i = 0; i < m; i++) a.insert(a.begin() + rng.below(a.size() + 1), {R[rng.below(sizeof(R) / sizeof(*R))], V[rng.below(8)]});
 	return a;
 }
 
@@ -87,7 +93,15 @@ static int layout_mode(long count, uint64_t seed, const char* outp) {
 	for (long it = 0; it < count; it++) {
 		int ndim = 1 + (int)(it % 9); TableSpec s = random_spec(rng, ndim, it % 3 != 2); auto aux = random_aux(rng);
 		// --- (R1) the library writes, the independent codec reads the bytes
-		Table t; PVA::build(t, s, PAD_ZERO); for (auto& a : aux) t.write_key(a.first.c_str(), a.second.c_str());
+		Table t; PVA::build(t, s, PAD_ZERO);
+		{
+			std::vector<std::pair<std::string, std::string>> held;
+			for (auto& a : aux) {
+				bool ok = true; try { t.write_key(a.first.c_str(), a.second.c_str()); } catch (std::exception&) { ok = false; }
+				if (ok) { bool dup = false; for (auto& h : held) if (h.first == a.first) { h.second = a.second; dup = true; } if (!dup) held.push_back(a); }
+			}
+			aux = held;
+		}
 		std::vector<unsigned char> bytes; bool disk = it % 2;
 		if (disk) { std::string p = dir + "/w.fits"; t.write_fits(p); std::ifstream f(p, std::ios::binary); bytes.assign((std::istreambuf_iterator<char>(f)), std::istreambuf_iterator<char>()); }
 		else { auto b = t.write_fits_mem(); bytes.assign((unsigned char*)b.first, (unsigned char*)b.first + b.second); free(b.first); }
